@@ -1096,6 +1096,29 @@ fn child_finishes(idx: usize, tier: &str, secs: u64) -> bool {
     done
 }
 
+/// Runs the NEXT case (index `em.idx`) in a watchdog child first.  `Some(true)`: it did not return in time (5 s, and
+/// with `retry` not within 30 s either: rules out a slow machine); `None`: enough time-outs of this `key` were seen in
+/// this run (2 quick, 6 thorough), the caller skips the case.  No-op inside a child and for cases not selected by `--only`.
+pub fn watchdog(em: &mut Em, key: &str, retry: bool) -> Option<bool> {
+    if std::env::var("C12_CHILD").is_ok() || !em.only.map_or(true, |o| o == em.idx) {
+        return Some(false);
+    }
+    let k = format!("glmfit:watchdog_timeout:{}", key);
+    if *em.dist.get(&k).unwrap_or(&0) >= if em.thorough() { 6 } else { 2 } {
+        em.count(&format!("glmfit:skipped_after_watchdog_timeouts:{}", key));
+        return None;
+    }
+    let tier = em.tier.clone();
+    let mut hangs = !child_finishes(em.idx, &tier, 5);
+    if hangs && retry {
+        hangs = !child_finishes(em.idx, &tier, 30);
+    }
+    if hangs {
+        em.count(&k);
+    }
+    Some(hangs)
+}
+
 pub struct GlmCase {
     pub power: f64,
     /// link used by the data generator and the oracle (0 identity, 1 log, 2 logit)
@@ -1155,37 +1178,42 @@ pub fn run_glmfit(em: &mut Em, c: GlmCase) {
     let op = format!("#glmfit power={} l={} auto={} icpt={} alpha={} tol={} bad={} lay={} maxit={} x={} y={}", power, l, auto_link as u8, icpt as u8, alpha, tol, bad as u8, lay, max_iter.map_or("default".to_string(), |t| t.to_string()), hx2(&x), hx(&y));
     let class_v = class.clone();
     trace(&op);
-    // identity link with power >= 1: the mean can reach <= 0, where the deviance is undefined
-    let risky = l == 0 && power > 0.0 && !bad;
+    // every fit that is expected to succeed runs under the watchdog: with the identity link and power >= 1 the mean can
+    // reach <= 0, where the deviance is undefined and the real `fit` may never return; any other arm that stops
+    // returning is reported the same way (clause `terminates`) instead of hanging the check
     let mut hangs = false;
-    if risky && std::env::var("C12_CHILD").is_err() && em.only.map_or(true, |o| o == em.idx) {
-        // without intercept the start point has mean 0 and the fit never returns (open finding): two witnesses per
-        // run (six thorough) are enough; WITH intercept the problem is well posed and every case is run
-        let key = format!("glmfit:watchdog_timeout:icpt={}", icpt as u8);
-        let timeouts = *em.dist.get(&key).unwrap_or(&0);
-        if timeouts >= if em.thorough() { 6 } else { 2 } {
-            em.count(&format!("glmfit:skipped_after_watchdog_timeouts:icpt={}", icpt as u8));
-            // keeps the case index aligned with the watchdog children, which never skip
-            em.case(format!("#glmfit_skipped {}", &op[8..]), |ctx| {
-                ctx.mark_trivial();
-                "skipped".into()
-            });
-            return;
-        }
-        let tier = em.tier.clone();
-        hangs = !child_finishes(em.idx, &tier, 5);
-        if hangs && icpt {
-            // not the known non-termination: rule out a slow machine before reporting
-            hangs = !child_finishes(em.idx, &tier, 30);
-        }
-        if hangs {
-            em.count(&key);
+    if !bad {
+        // without intercept, identity link, power >= 1: the start point has mean 0 and the fit never returns (open
+        // finding): two witnesses per run (six thorough) are enough; every other class is always run
+        let known = l == 0 && power > 0.0 && !icpt;
+        match watchdog(em, if known { "icpt=0" } else { "icpt=1" }, !known) {
+            None => {
+                // keeps the case index aligned with the watchdog children, which never skip
+                em.case(format!("#glmfit_skipped {}", &op[8..]), |ctx| {
+                    ctx.mark_trivial();
+                    "skipped".into()
+                });
+                return;
+            }
+            Some(h) => hangs = h,
         }
     }
     let mut fitted = false;
     let fitted_ref = &mut fitted;
+    // identity link, power >= 1, with intercept: does the first steepest-descent step of unit length from the start
+    // point (intercept = mean(y), coef = 0) already leave the domain mean > 0?  (open finding 6: the line search then
+    // evaluates a NaN cost and never returns)
+    let unit_step_leaves_domain = l == 0 && power > 0.0 && icpt && !bad && {
+        let b0 = y.iter().sum::<f64>() / y.len() as f64;
+        let (gw, gb) = doc_glm_grad(power, Link::Identity, alpha, &x, &y, &vec![0.0; nf], b0);
+        x.iter().any(|r| r.iter().zip(&gw).map(|(a, g)| -a * g).sum::<f64>() + b0 - gb <= 0.0)
+    };
+    if unit_step_leaves_domain {
+        em.count("glmfit:identity_link_unit_step_leaves_domain");
+    }
     let body = move |ctx: &mut Ctx| {
         if hangs {
+            let class = if unit_step_leaves_domain { format!("{}:unit_step_leaves_domain", class) } else { class.clone() };
             ctx.fail("terminates", &class, "fit did not return within 5 s (with intercept: nor within 30 s; watchdog child process killed); start point has mean <= 0 or the line search left the domain of the deviance".to_string());
             return "timeout".into();
         }
